@@ -7,11 +7,12 @@ Driver for C07.  One request per line, `k=v` fields separated by single spaces.
   k=L m=… f=<and|or> l=<seq> r=<seq>                                S1 and S2 / S1 or S2
   k=R q=<num>/<den>                                                 rounding self-test: toD64 / toD32
   k=C a=<D> b=<D>                                                   isclose self-test
+  k=Y t=<local seconds>                                             year self-test: the model's `_year`
 
 <seq>  : `_` (empty) or items separated by `;`
 <item> : n:<cps> node with string value | i:<int> | d:<num>/<den> | f:<D> double | g:<D> float
          | s:<cps> string | u:<cps> untypedAtomic | b:0/1 | a:<cps> anyURI | q:<ns>/<pre>/<loc>
-         | D:<y>/<t>/<tz> date | T:… dateTime | t:… time (local year, local seconds since 0001-01-01, offset minutes or _) | P:<m>/<s> duration | Y:<m> | S:<s>
+         | D:<t>/<tz> date | T:… dateTime | t:… time (local seconds since 0001-01-01, offset minutes or _) | P:<m>/<s> duration | Y:<m> | S:<s>
          | x:<octets> hexBinary | y:<octets> base64Binary
 <cps>  : code points separated by `,` (may be empty);  <D> : NaN | INF | -INF | -0 | <num>/<den>
 
@@ -43,12 +44,12 @@ def splitTag (s : String) : String × String :=
   | t :: rest => (t, ":".intercalate rest)
   | [] => ("", "")
 
-/-- `<year>/<local seconds>/<tz minutes or _>` -/
+/-- `<local seconds>/<tz minutes or _>` -/
 def parseDT (s : String) : Option DT :=
   match s.splitOn "/" with
-  | [y, t, z] => do
-    let yy ← int? y; let tt ← int? t
-    if z == "_" then pure ⟨yy, tt, none⟩ else do let zz ← int? z; pure ⟨yy, tt, some zz⟩
+  | [t, z] => do
+    let tt ← int? t
+    if z == "_" then pure ⟨tt, none⟩ else do let zz ← int? z; pure ⟨tt, some zz⟩
   | _ => none
 
 def parseItem (s : String) : Option Item :=
@@ -126,6 +127,10 @@ def answer (line : String) : String :=
     match parseRat (field fs "q") with
     | some q => s!"model={showD (toD64 q)};{showD (toD32 q)} spec=NA trig=-"
     | none => "bad-rat"
+  else if k == "Y" then
+    match int? (field fs "t") with
+    | some t => s!"model={(DT.mk t none).year} spec=NA trig=-"
+    | none => "bad-t"
   else if k == "C" then
     match parseD (field fs "a"), parseD (field fs "b") with
     | some a, some b => s!"model={if isclose a b then "T" else "F"} spec=NA trig=-"
